@@ -51,13 +51,14 @@ int64_t* h_list(const char* v, size_t* n) {
 int main(int argc, char** argv) {
     if (argc < 2) { fprintf(stderr, "usage\n"); return 2; }
     hctx h; memset(&h, 0, sizeof h);
+    h.in_path = NULL;
     const char* comp = argv[1]; const char* outp = NULL; const char* inp = NULL;
     uint64_t seed = 1;
     for (int i = 2; i < argc; i++) {
         if (!strcmp(argv[i], "--seed") && i + 1 < argc) seed = strtoull(argv[++i], NULL, 10);
         else if (!strcmp(argv[i], "--tier") && i + 1 < argc) h.thorough = !strcmp(argv[++i], "thorough");
         else if (!strcmp(argv[i], "--out") && i + 1 < argc) outp = argv[++i];
-        else if (!strcmp(argv[i], "--in") && i + 1 < argc) inp = argv[++i];
+        else if (!strcmp(argv[i], "--in") && i + 1 < argc) { inp = argv[++i]; h.in_path = inp; }
         else if (!strcmp(argv[i], "--budget") && i + 1 < argc) h.budget = strtol(argv[++i], NULL, 10);
     }
     h.rng = seed * 0x2545F4914F6CDD1Dull + 0x1234567;
